@@ -5,8 +5,9 @@ import os, re, shutil, random, collections
 from common import run_fjv, workdir, pmap
 import crash as C
 
-LEVEL = "fault_enumeration"
-COQ_TARGETS = ()
+LEVEL = "proof"
+COQ_TARGETS = ("props/C10.vo",)
+THEOREMS = ["C10_evicted_only_when_durable", "C10_oldest_first", "C10_back_to_one_partial", "C10_example"]
 
 
 def build_workload(seed):
@@ -90,6 +91,17 @@ def restrict(expect, big, prog, last_line):
     return e2, b2
 
 
+def collapse(ops):
+    out, i = [], 0
+    while i < len(ops):
+        j = i
+        while j < len(ops) and ops[j] == ops[i]:
+            j += 1
+        out.append(ops[i] if j - i == 1 else "%s x%d" % (ops[i], j - i))
+        i = j
+    return out
+
+
 def eviction_workload(args):
     idx, seed, tier = args
     prog, names, expect, big = build_workload(seed * 67867967 + idx)
@@ -138,7 +150,109 @@ def eviction_workload(args):
         shutil.rmtree(wd, ignore_errors=True)
 
 
+def mgr_conformance(args):
+    """JournalMgr.v vs the real journal manager: a workload with real 66 MiB journal traffic (memtable limit 400 MB so that
+    only explicit rotations happen) is translated step by step into model operations — write -> JWrite, rotate -> JRotate,
+    each queued flush task at `drain` -> [JSeal when the active journal is past 64 000 000 bytes] JFlush JMaint, delete ->
+    JDelete — and the number of journal files (Database::journal_count through `info`) and the set of unlinked files
+    (shim log) must equal the model's after every step."""
+    import subprocess
+    from common import FJM, ENV
+    idx, seed = args
+    r = random.Random(seed * 15485863 + idx)
+    nks = r.choice([2, 3])
+    names = ["alpha", "beta", "gamma"][:nks]
+    L = ["open plain jcomp=none"] + ["ks h%d %s mt=400000000" % (i, n) for i, n in enumerate(names)] + ["arm"]
+    M = ["c %d" % (i + 1) for i in range(nks)]
+    checks = []                       # (program line, index into the model output)
+    unflushed = {i: 0 for i in range(nks)}      # writes in the active memtable
+    queue = []                        # flush tasks in order
+    jbytes, fills, alive = 0, 0, set(range(nks))
+    for k in range(nks):               # every keyspace has unflushed data from the start (lagging keyspaces)
+        L.append("put h%d 6d00 00" % k)
+        M.append("w %d" % (k + 1)); unflushed[k] += 1; jbytes += 60
+    filler = None
+    for step in range(r.randrange(10, 18)):
+        c = r.random()
+        live = sorted(alive)
+        k = r.choice(live)
+        if step in (1, 7) and fills < 3:
+            c = 0.5                     # a fill early and one in the middle
+        elif filler in alive and unflushed[filler] and r.random() < 0.5:
+            k, c = filler, 0.7          # flush the filler first: the others lag behind
+        elif queue and r.random() < 0.6:
+            c = 0.9
+        if c < 0.3:
+            L.append("put h%d %s %s" % (k, "6d%02x" % r.randrange(256), "%04x" % r.randrange(65536)))
+            M.append("w %d" % (k + 1)); unflushed[k] += 1; jbytes += 60
+        elif c < 0.4 and len(live) > 1:
+            a, b = r.sample(live, 2)
+            L.append("batch - h%d:p:6e01:01 h%d:p:6e02:02" % (a, b))
+            M.append("w %d %d" % (a + 1, b + 1)); unflushed[a] += 1; unflushed[b] += 1; jbytes += 120
+        elif c < 0.55 and fills < 3:
+            L.append("bigfill h%d 66 1024 t%d" % (k, fills)); fills += 1; filler = k
+            M += ["w %d" % (k + 1)] * 66; unflushed[k] += 66; jbytes += 66 * (1024 * 1024 + 40)
+        elif c < 0.8:
+            L.append("rotate h%d" % k)
+            M.append("r %d" % (k + 1))
+            if unflushed[k]:
+                queue.append(k); unflushed[k] = 0
+        elif c < 0.93:
+            L.append("drain")
+            for q in queue:
+                if jbytes > 64000000:
+                    M.append("s"); jbytes = 0
+                M += ["f %d" % (q + 1), "m"]
+            queue = []
+        elif len(live) > 1 and not queue:
+            L += ["delks h%d" % k, "drop h%d" % k]
+            M.append("d %d" % (k + 1)); alive.discard(k)
+        else:
+            continue
+        L.append("info")
+        checks.append((len(L), len(M) - 1))
+    for k in sorted(alive):
+        L.append("rotate h%d" % k); M.append("r %d" % (k + 1))
+        if unflushed[k]:
+            queue.append(k); unflushed[k] = 0
+    L.append("drain")
+    for q in queue:
+        if jbytes > 64000000:
+            M.append("s"); jbytes = 0
+        M += ["f %d" % (q + 1), "m"]
+    L.append("info")
+    checks.append((len(L), len(M) - 1))
+    L.append("exit 0")
+    prog = "\n".join(L) + "\n"
+    wd = workdir()
+    try:
+        db = C.fresh(wd)
+        o, raw, rc = run_fjv(prog, dbdir=db, env_extra=C.shim_env(db, wd), timeout=600)
+        p = subprocess.run([FJM, "jmgr"], input="\n".join(M) + "\n", env=ENV, stdout=subprocess.PIPE, stderr=subprocess.PIPE, text=True)
+        mo = [tuple(map(int, l.split())) for l in p.stdout.splitlines()]
+        un = len([e for e in C.read_log(wd) if e["call"] in ("unlink", "unlinkat") and e["path"].endswith(".jnl") and e["ret"] == "0"])
+        diffs = []
+        for ln, mi in checks:
+            m = re.search(r"journals=(\d+)", o.get(ln, ""))
+            got = int(m.group(1)) if m else None
+            if mi >= len(mo) or got != mo[mi][0]:
+                diffs.append("line %d (%s): journal_count %s, model %s" % (ln, L[ln - 2], got, mo[mi][0] if mi < len(mo) else None))
+        sealed_model = sum(1 for x in M if x == "s")
+        final = mo[-1][0] if mo else None
+        if not diffs and un != sealed_model - (final - 1):
+            diffs.append("journal files unlinked: %d, model: %d sealed - %d still kept" % (un, sealed_model, final - 1))
+        return dict(prog=prog, model_ops=M, diffs=diffs, seals=sealed_model, steps=len(checks), counts=[mo[mi][0] for _, mi in checks if mi < len(mo)])
+    finally:
+        shutil.rmtree(wd, ignore_errors=True)
+
+
 def run(rep, tier, seed, build):
+    from common import proof_audit, TRUSTED_BASE
+    obl, dis, pproblems = proof_audit("props/C10.v", THEOREMS, build["coq"])
+    mc = pmap(mgr_conformance, [(i, seed) for i in range(4 if tier == "quick" else 40)], workers=4)
+    for x in [x for x in mc if x["diffs"]][:2]:
+        rep.violation("# C10: the journal manager differs from JournalMgr.v: %s\n# model operations: %s\n%s"
+                      % ("; ".join(x["diffs"][:3]), " | ".join(collapse(x["model_ops"])), x["prog"]))
     n = 16 if tier == "quick" else 120
     results = pmap(eviction_workload, [(i, seed, tier) for i in range(n)], workers=6)
     bad = [r_ for r_ in results if r_["problems"]]
@@ -152,8 +266,17 @@ def run(rep, tier, seed, build):
                              "through the shim: order must be oldest first, a crash right after the unlink must recover every acknowledged "
                              "write, journal_count returns to 1 after everything is flushed; non-trivial = at least one journal unlinked",
                         samples=[r_["sample"] for r_ in results if r_.get("sample")][:3], workloads=n,
-                        journal_unlinks=sum(len(r_["unlinks"]) for r_ in results), disagreements_checked=len(bad))
-    rep.assumptions = ["process-crash model at the unlink points (kill)"]
+                        journal_unlinks=sum(len(r_["unlinks"]) for r_ in results), disagreements_checked=len(bad) + len([x for x in mc if x["diffs"]]),
+                        model_conformance_workloads=len(mc), model_conformance_steps=sum(x["steps"] for x in mc),
+                        model_conformance_seals=sum(x["seals"] for x in mc), model_conformance_sample=mc[0]["counts"] if mc else [],
+                        obligations=obl, discharged=dis if not pproblems else min(dis, obl - 1),
+                        checker_cmd="cd coq && make props/C10.vo (coqc 8.16.1) + Print Assumptions audit", trusted_base=TRUSTED_BASE,
+                        programs=n + len(mc), traces_validated_against_impl=len(mc), proof_problems=pproblems)
+    if pproblems and not rep.violations:
+        rep.violation("# C10: proof obligations no longer check\n" + "\n".join(pproblems) + "\n", suffix="no-failing-input-found")
+    rep.assumptions = ["process-crash model at the unlink points (kill)",
+                       "JournalMgr.v steps are the critical sections of the code; the translation of harness operations into model steps "
+                       "(which flush task a worker tick takes, when the 64 000 000-byte threshold is passed) is part of the correspondence glue"]
 
 
 def replay(rep, path, build):
